@@ -57,4 +57,13 @@ def harnesses():
     for b in INV_NARROW:
         out.append(H("c02_inv_ring_narrow_%d" % b, "C02", "c02::inv_ring_narrow::<%d>" % b, unwind=4, tier="quick",
                      inst="Uint<%d,1>" % b, domain="every value of the width", free_bits=b, fns=["inv_ring"], timeout=1200))
+    # LATTICE harnesses with the real multipliers (c02::mul_lattice / widening_lattice, 3 free bits per limb) were probed at
+    # 192/256 bits and 192x192, 256x128, 256x256: CBMC exhausts 14 GB after 9-10 min (16+16 full 64x64 multiplier circuits
+    # next to addmul's symbolic slices) - not registered; the bodies stay in c02.rs
+    b = 256
+    l = nlimbs(b)
+    w = 2 * l + 1
+    out.append(H("c02_wrapping_uf_%d" % b, "C02", "c02::wrapping_uf::<%d,%d,%d>" % (b, l, w), unwind=w + 2,
+                 tier="thorough", inst="Uint<256,4>", domain=UFDOM, free_bits=2 * b, stubs=UF, abstract=True,
+                 fns=["wrapping_mul", "algorithms::addmul_n (addmul_4)"], timeout=3600))
     return out
